@@ -209,7 +209,9 @@ def gen_case(rng, tier, T_modes=("zero", "pos", "mixed", "named", "empty")):
     return {"fn": fn, "kind": kind, "terms": G.jraw(t), "upd": G.jraw(upd),
             "Ts": None if Ts is None else [[x.numerator, x.denominator] for x in Ts], "sched": sched,
             "num": rng.choice([1, 1, 1, 2, 2, 3, 3, 0, -1]) if rng.random() < 0.9 else 4,
-            "in_order": rng.random() < 0.5, "init": init, "seed": rng.randint(0, 2 ** 31 - 1)}
+            "in_order": rng.random() < 0.5, "init": init, "seed": rng.randint(0, 2 ** 31 - 1),
+            # an explicit temperature list is used as it is: anneal_duration (and temperature_range) are documented as ignored then
+            "dur": (rng.choice([1, 1, 2, 3]) if (Ts is not None and rng.random() < 0.35) else None)}
 
 
 def build_model(case):
@@ -230,6 +232,8 @@ def call_impl(case, model):
         kw["initial_state"] = {C.dec(l): v for l, v in case["init"]}
     if case["Ts"] is not None:
         kw["schedule"] = [float(F(*x)) for x in case["Ts"]]
+        if case.get("dur") is not None:
+            kw["anneal_duration"] = case["dur"]
     else:
         s = case["sched"]
         kw["schedule"] = s["schedule"]
